@@ -164,14 +164,26 @@ def run(report, tier, seed, driver, proofs_ok):
             t["Resources"]["Iam"] = r
         cases.append(("damaged", damage(rng, t), 10.0))
     depths = [50, 200, 400, 600, 1000, 3000] if thorough else [50, 200, 400, 1000]
+    deep_ops = []
     for d in depths:
         for kind in ("obj", "arr"):
-            cases.append((f"deep-{kind}", {"Resources": {"R": {"Type": "Custom::Deep", "Properties": {"P": deep(kind, d)}}}}, 20.0))
-            cases.append((f"deep-{kind}-metadata", {"Metadata": {"M": deep(kind, d)}, "Resources": {}}, 20.0))
+            for where in ("properties", "metadata"):
+                deep_ops.append({"op": "parse_deep", "kind": kind, "depth": d, "where": where})
     for w in ([1000, 20000, 200000] if thorough else [1000, 20000]):
         cases.append(("wide-list", {"Resources": {"R": {"Type": "Custom::Wide", "Properties": {"P": ["x"] * w}}}}, 30.0))
         cases.append(("wide-resources", {"Resources": {f"R{i}": {"Type": "Custom::W"} for i in range(w // 10)}}, 30.0))
         cases.append(("long-text", {"Resources": {"R": {"Type": "Custom::Long", "Properties": {"P": "a" * (w * 5), "Q": "[" * w}}}}, 30.0))
+    for op in deep_ops:
+        out = sb.run(op, timeout=30.0)
+        kind = f"deep-{op['kind']}-{op['where']}"
+        oc = out["outcome"] if out["outcome"] != "raised" else out["class"]
+        report.case(op, (kind, op["depth"]))
+        report.count(f"parse:{kind}:{oc}")
+        if out["outcome"] == "ok" or out.get("class") == "ValidationError":
+            continue
+        report.violation("oracle", f"parse-{oc}:{kind}", op=op, impl=out,
+                         oracle="parse must return a model or raise the library's ValidationError for input of any nesting depth",
+                         nesting_depth=op["depth"])
     for kind, t, budget in cases:
         out = sb.run({"op": "parse", "template": t}, timeout=budget)
         size = len(json.dumps(t)) if kind != "whole" else 0
@@ -183,8 +195,6 @@ def run(report, tier, seed, driver, proofs_ok):
                 report.count("slow-but-finished")
             continue
         depth_info = None
-        if kind.startswith("deep"):
-            depth_info = next(d for d in sorted(depths, reverse=True) if common.jdump(t).count("k" if "obj" in kind else "[") >= d)
         what = f"parse-{oc}" + (f":{kind}" if kind.startswith(("deep", "wide", "long")) else "")
         report.violation("oracle", what, op={"op": "parse", "kind": kind, "template": t if size < 4000 else f"<{kind} of {size} bytes>"}, impl=out,
                          oracle="parse must return a model or raise the library's ValidationError, within time and memory bounded by the input size",
